@@ -211,15 +211,21 @@ class Checker:
         Gather all file paths described in the torrent file.
         """
         finfo = self.fileinfo
+        length = self.info.get("length")
+        tree = self.info.get("file tree")
+        if (length is None and tree and list(tree) == [self.name]
+                and "" in tree[self.name] and os.path.isfile(self.root)):
+            # BEP 52 single file torrent: the length lives in the file tree
+            length = tree[self.name][""]["length"]
 
-        if "length" in self.info:
+        if length is not None:
             self.log_msg("%s points to a single file", self.root)
-            self.total = self.info["length"]
+            self.total = length
             self.paths.append(str(self.root))
 
             finfo[0] = {
                 "path": self.root,
-                "length": self.info["length"],
+                "length": length,
             }
 
             if self.meta_version > 1:
